@@ -191,11 +191,13 @@ def fiddler_from_diff(
       additional_converters=value_converters)
 
   body = []
+  # Aliases only read the (still unmodified) input config, and new shared
+  # values may refer to them, so the aliases come first.
+  body += _cst_for_moved_value_variables(param_name, moved_value_names,
+                                         pyval_to_cst)
   body += _cst_for_new_shared_value_variables(diff.new_shared_values,
                                               new_shared_value_names,
                                               pyval_to_cst)
-  body += _cst_for_moved_value_variables(param_name, moved_value_names,
-                                         pyval_to_cst)
   body += _cst_for_changes(diff, param_name, moved_value_names, pyval_to_cst)
 
   fiddler = _cst_for_fiddler(func_name, param_name, body,
@@ -232,12 +234,32 @@ def _cst_for_new_shared_value_variables(
     values: Tuple[Any], names: List[str],
     pyval_to_cst: PyValToCstFunc) -> List[cst.CSTNode]:
   """Returns a list of `CSTNode`s for creating new shared value variables."""
+  # A shared value may refer to other shared values; define those first.
+  order = []
+  visited = set()
+
+  def visit(index: int):
+    if index in visited:
+      return
+    visited.add(index)
+    for node, _ in daglish.iterate(values[index], memoized=False):
+      if (
+          isinstance(node, diffing.Reference)
+          and node.root == 'new_shared_values'
+          and isinstance(node.target[0], daglish.Index)
+      ):
+        visit(node.target[0].index)
+    order.append(index)
+
+  for index in range(len(values)):
+    visit(index)
+
   statements = []
-  for value, name in sorted(zip(values, names), key=lambda item: item[1]):
+  for index in order:
     statements.append(
         cst.Assign(
-            targets=[cst.AssignTarget(target=cst.Name(name))],
-            value=pyval_to_cst(value)))
+            targets=[cst.AssignTarget(target=cst.Name(names[index]))],
+            value=pyval_to_cst(values[index])))
   return [cst.SimpleStatementLine([stmt]) for stmt in statements]
 
 
